@@ -31,7 +31,8 @@ def tree_hash():
         h.update(b'\0')
     # the machinery itself is part of the key: a new translator / prelude invalidates cached results
     for f in sorted(glob.glob(os.path.join(VERIF, 'xlate', 'src', '*.rs'))) + sorted(glob.glob(os.path.join(VERIF, 'harness', 'src', '*.rs'))) \
-            + sorted(glob.glob(os.path.join(TFV, 'TFV', 'Prelude', '*.lean'))) + [MODEL_DEFS, os.path.join(TFV, 'TFV', 'Extra.lean'), os.path.join(TFV, 'Main.lean'), os.path.join(TFV, 'TFV', 'Hand', 'Serde.lean')]:
+            + sorted(glob.glob(os.path.join(TFV, 'TFV', 'Prelude', '*.lean'))) + [MODEL_DEFS, os.path.join(TFV, 'TFV', 'Extra.lean'), os.path.join(TFV, 'Main.lean'), os.path.join(TFV, 'TFV', 'Hand', 'Serde.lean'),
+               os.path.join(TFV, 'TFV', 'Spec', 'Comm.lean'), os.path.join(TFV, 'TFV', 'Spec', 'Comm2.lean'), os.path.abspath(__file__)]:
         with open(f, 'rb') as fh:
             h.update(fh.read())
     return h.hexdigest()[:16]
@@ -100,12 +101,22 @@ def rename_for_delta(text, names):
         text = re.sub(r'(?<![\w.«»])' + re.escape(n) + r'(?![\w«»])(?!\.(?!pf\b|go\b|loop\d)[A-Za-z_])', n + '.NEW', text)
     return text
 
+# identities of the binary64 model that hold bit for bit (Spec/Comm.lean, Spec/Comm2.lean); the alternatives are tried in
+# order of cost: definitional unfolding, rewriting with the identities, case splitting on every `if`/`match` (grind, split)
+EXT = 'F64.add_comm, F64.mul_comm, F64.fma_comm, rgt_f64_swap, rge_f64_swap, rmul_f64_two, rtwo_mul_f64, rdiv_f64_two'
+BRIDGE_TAC = ('theorem bridge_UNAME : @NAME.NEW = @NAME := by\n  first | rfl | (funext; rfl)'
+              ' | (funext; simp only [NAME.NEW, NAME, arithmetic.fma, RAdd.add, RMul.mul, F64.add_comm, F64.mul_comm, F64.fma_comm]; done)'
+              ' | (funext; unfold NAME.NEW NAME; simp [' + EXT + ']; done)'
+              ' | (funext; unfold NAME.NEW NAME; grind)'
+              ' | (funext; unfold NAME.NEW NAME; simp only [' + EXT + ']; grind)'
+              ' | (funext; unfold NAME.NEW NAME; repeat\' split <;> simp_all [' + EXT + '])')
+
 def bridge(hdir, model, gen, gen_order, changed, added):
     """kernel-checked equality of each changed definition with its Model counterpart (DESIGN §2.6)"""
     res = {}
     if not changed and not added:
         return res
-    lines = ['import TFV.Gen', 'import TFV.Spec.Comm', 'set_option linter.unusedSimpArgs false', 'set_option linter.unusedVariables false', 'set_option maxRecDepth 100000', 'set_option maxHeartbeats 400000', '']
+    lines = ['import TFV.Gen', 'import TFV.Spec.Comm2', 'set_option linter.unusedSimpArgs false', 'set_option linter.unusedVariables false', 'set_option maxRecDepth 100000', 'set_option maxHeartbeats 400000', '']
     names = set(changed)
     order = [n for n in gen_order if n in names or n in added]
     for n in order:
@@ -122,9 +133,11 @@ def bridge(hdir, model, gen, gen_order, changed, added):
         if d.get('pf'):
             lines.append(rename_for_delta(d['pf'], names))
         if gen[n]['text'] != model[n]['text']:
-            lines.append('theorem bridge_%s : @%s.NEW = @%s := by\n  first | rfl | (funext; rfl) | (funext; simp only [%s.NEW, %s, arithmetic.fma, RAdd.add, RMul.mul, F64.add_comm, F64.mul_comm, F64.fma_comm]) | (funext; unfold %s.NEW %s; simp [F64.add_comm, F64.mul_comm, F64.fma_comm])' % (n.replace('.', '_'), n, n, n, n, n, n))
+            lines.append(BRIDGE_TAC.replace('UNAME', n.replace('.', '_')).replace('NAME', n))
+            lines.append('#print axioms bridge_%s' % n.replace('.', '_'))
         if d.get('pf') and model[n].get('pf') and d['pf'] != model[n]['pf']:
-            lines.append('theorem bridgepf_%s : @%s.NEW.pf = @%s.pf := by\n  first | rfl | (funext; rfl) | (funext; simp only [%s.NEW.pf, %s.pf])' % (n.replace('.', '_'), n, n, n, n))
+            lines.append(BRIDGE_TAC.replace('bridge_UNAME', 'bridgepf_UNAME').replace('UNAME', n.replace('.', '_')).replace('NAME.NEW', 'NAME.NEW.pf').replace('@NAME :=', '@NAME.pf :=').replace('NAME.NEW.pf NAME;', 'NAME.NEW.pf NAME.pf;').replace('NAME.NEW.pf, NAME,', 'NAME.NEW.pf, NAME.pf,').replace('NAME', n))
+            lines.append('#print axioms bridgepf_%s' % n.replace('.', '_'))
         elif bool(d.get('pf')) != bool(model[n].get('pf')):
             res[n] = 'BROKEN (panic-freedom predicate appeared or disappeared)'
         lines.append('')
@@ -154,6 +167,10 @@ def bridge(hdir, model, gen, gen_order, changed, added):
             failed.add(hit)
         else:
             generic_fail = True
+    # a bridge may only rest on the three standard axioms
+    for m in re.finditer(r"'bridge_(\S+)' depends on axioms: \[(.*?)\]", out, re.S):
+        if any(a.strip() not in ('propext', 'Classical.choice', 'Quot.sound') for a in m.group(2).split(',') if a.strip()):
+            generic_fail = True
     for n in changed:
         if n in res:
             continue
@@ -180,6 +197,25 @@ def build_gen_driver(hdir, gdir):
     if rc != 0:
         return None, out[-3000:]
     return os.path.join(proj, '.lake', 'build', 'bin', 'driver'), ''
+
+def reprove_project(st):
+    """a copy of the Lean project whose Gen.lean is the REGENERATED model of the current tree: building a property's
+    theorem modules there re-checks the theorems against what the code says now (DESIGN §2.6, second chance after a
+    bridge that rfl/simp could not close).  Compiled Prelude files are reused; everything that imports Gen is rebuilt."""
+    proj = os.path.join(st['dir'], 'reprove')
+    with Lock(os.path.join(st['dir'], 'reprove.lock')):
+        if not os.path.exists(os.path.join(proj, 'READY')):
+            shutil.rmtree(proj, ignore_errors=True)
+            os.makedirs(proj)
+            for f in ('lakefile.toml', 'Main.lean', 'TFV.lean', 'lake-manifest.json'):
+                if os.path.exists(os.path.join(TFV, f)):
+                    shutil.copy2(os.path.join(TFV, f), os.path.join(proj, f))
+            shutil.copytree(os.path.join(TFV, 'TFV'), os.path.join(proj, 'TFV'))
+            sh(['cp', '-a', os.path.join(TFV, '.lake'), os.path.join(proj, '.lake')])
+            for f in ('Gen.lean', 'Dispatch.lean'):
+                shutil.copy(os.path.join(st['dir'], 'gen_std', f), os.path.join(proj, 'TFV', f))
+            open(os.path.join(proj, 'READY'), 'w').write('ok')
+    return proj
 
 def ensure_serde(st):
     """third harness build (serde feature), only needed by C20; cached beside the others"""
